@@ -1092,7 +1092,8 @@ func cfgLimitZones(path string) []cfgZone {
 // ---------------------------------------------------------------- in-process verdict (load + interpret)
 
 type cfgGoVerdict struct {
-	load      string // ok | err:<classes> | panic
+	load      string // ok | err | panic
+	loadClass string // what the loader's message texts say (err:<classes>): statistics only
 	interp    string // ok | err:<sections> | panic | -
 	accepted  bool
 	panicText string
@@ -1131,7 +1132,8 @@ func cfgGoLoadInterpret(tomlText string) (v cfgGoVerdict, sc interface{ Run() er
 		return cfgGoVerdict{load: "panic", interp: "-", panicText: p}, nil
 	}
 	if lerr != nil {
-		return cfgGoVerdict{load: cfgClassifyLoadError(lerr), interp: "-"}, nil
+		// the class read from the message texts is counted (stats), not compared: their wording is nobody's contract
+		return cfgGoVerdict{load: "err", interp: "-", loadClass: cfgClassifyLoadError(lerr)}, nil
 	}
 	v.load = "ok"
 	// per-section verdicts from the three section interpreters
@@ -1280,6 +1282,11 @@ func cfgRunChild(harness, dir, tomlPath string, outDirs []string, timeout time.D
 				from = i - 40
 			}
 			return cfgRunOutcome{class: "run-failed-error", panicLine: clip(r[from:], 400), detail: clip(r, 1500)}
+		}
+		if len(cfgPanicCandidates(r)) > 0 {
+			// the Runner's own words around a recovered run failure are nobody's contract: an error value that carries the text
+			// of a known failure site is a recovered run failure however it is introduced
+			return cfgRunOutcome{class: "run-failed-error", panicLine: clip(strings.TrimPrefix(r, "error-value "), 1200), detail: clip(r, 1500)}
 		}
 		return cfgRunOutcome{class: "error-value", detail: clip(r, 1500)}
 	case strings.HasPrefix(r, "rejected"):
@@ -1906,13 +1913,21 @@ func cfgExplain(cands []string, pr cfgModelPred) (explained, recurred string) {
 			return "", cand
 		}
 	}
+	// the failure's text was not recognised (crem's messages may be reworded), but the model says that this very configuration
+	// MUST fail at a known site: that finding explains it (a configuration that only MAY fail still needs the text to agree)
+	if len(pr.must) > 0 {
+		return pr.must[0], ""
+	}
 	return "", ""
 }
 
 func cfgVerdictClass(v cfgGoVerdict) string {
 	if v.load != "ok" {
-		if i := strings.IndexByte(v.load, '('); i > 0 {
-			return "load=" + v.load[:i]
+		if v.loadClass != "" {
+			if i := strings.IndexByte(v.loadClass, '('); i > 0 {
+				return "load=" + v.loadClass[:i]
+			}
+			return "load=" + v.loadClass
 		}
 		return "load=" + v.load
 	}
